@@ -25,10 +25,18 @@ func c07ProcessLevel(c *vk.Ctx) {
 			{Listeners: []LnSpec{{"tcp", L(1)}, {"tcp", L(2)}}, Keys: []KeySpec{k1, k2}},
 			{Listeners: []LnSpec{{"tcp", L(3)}}, Keys: []KeySpec{k1}}, // another service, same id and secret
 		}}
+		// the same key once more on a port of the legacy `keys:` format
+		cf.Legacy = []LegacyKey{{k1, base + 9}}
 		if gen%2 == 1 {
 			cf.Services = append(cf.Services, SvcSpec{Listeners: []LnSpec{{"tcp", L(4 + gen%3)}}, Keys: []KeySpec{{fmt.Sprintf("gen%d", gen), pick(r, cipherNames), randSecret(r)}}})
 		}
 		return cf
+	}
+	lnFor := func(k KeySpec) string {
+		if k.ID == k2.ID {
+			return L(1 + r.Intn(2))
+		}
+		return L([]int{1, 2, 3, 9, 9}[r.Intn(5)])
 	}
 	N := 6 + r.Intn(10) // small, so that the history rotates several times during the run
 	srv, err := StartServer(c.RunDir, mk(0), ServerOpts{ReplayHistory: N})
@@ -66,10 +74,10 @@ func c07ProcessLevel(c *vk.Ctx) {
 		switch x := r.Intn(10); {
 		case x < 4 || len(hist) == 0: // fresh handshake on a random listener
 			k := k1
-			ln := L(1 + r.Intn(3))
 			if r.Intn(3) == 0 {
-				k, ln = k2, L(1+r.Intn(2))
+				k = k2
 			}
+			ln := lnFor(k)
 			caseN := nextID(c.Batch)
 			payload := putU64(caseN)
 			cl, err := DialSS(ln, nil, k, randBytes(r, k.Codec().C.SaltSize))
@@ -93,10 +101,7 @@ func c07ProcessLevel(c *vk.Ctx) {
 		case x < 8: // replay an earlier handshake somewhere else
 			i := r.Intn(len(hist))
 			h := hist[i]
-			ln := L(1 + r.Intn(3))
-			if h.key.ID == k2.ID {
-				ln = L(1 + r.Intn(2))
-			}
+			ln := lnFor(h.key)
 			dist := count - h.at
 			served, ok := present(ln, h.key, h.stream, h.payload)
 			if !ok {
@@ -110,6 +115,9 @@ func c07ProcessLevel(c *vk.Ctx) {
 					return
 				}
 				c.Count("process_replays_refused", 1)
+				if ln == L(9) {
+					c.Count("process_replays_refused_on_legacy_port", 1)
+				}
 				if gen > 0 {
 					c.Count("process_replays_refused_across_reload", 1)
 				}
